@@ -129,7 +129,6 @@ def equalFold : Bytes → Bytes → Bool
       | b :: rest => b == 0xBF && lowerAscii n == 115 && equalFold rest ns
       | _ => false
     else false
-termination_by a _ => a.length
 
 /-! ### numbers -/
 
